@@ -176,6 +176,37 @@ Fixpoint agg_loop (fuel : nat) (v : rvariant) (parent : rtmp_header) (first : bo
     end
   end.
 
+(* chunk data, and what happens when the message is complete *)
+Definition compose_body (v : rvariant) (st : cstate) (csid : N) (s2 : stream) (l3 : bytes) : step :=
+  let need := needed_size v (cs_chunk st) s2 in
+  match read_body l3 need (s_rbuf s2) with
+  | None => Stop (put_stream csid s2 st) [] (short_err l3)
+  | Some (rbuf, l4) =>
+    let s3 := mk_stream (s_hdr s2) rbuf (s_len s2 + need) (s_abs s2) (s_ts s2) in
+    if s_len s3 =? h_len (s_hdr s3) then
+      (* message complete *)
+      let buf := frev rbuf in
+      let chunk' := if (h_type (s_hdr s3) =? type_set_chunk_size) && (4 <=? s_len s3)
+                    then be_get (firstn 4 buf) else cs_chunk st in
+      let abs' := if s_abs s3 then h_ts (s_hdr s3) else u32 (h_ts (s_hdr s3) + s_ts s3) in
+      let hdr' := mk_hdr csid (h_len (s_hdr s3)) (h_type (s_hdr s3)) (h_msid (s_hdr s3)) abs' in
+      if h_type hdr' =? type_aggregate then
+        let '(ms, lft, e) := agg_loop (length buf) v hdr' true 0 buf in
+        let s4 := mk_stream hdr' (frev lft) (lenN lft) false (s_ts s3) in
+        let st' := mk_cstate chunk' (set_stream csid s4 (cs_streams st)) in
+        match e with
+        | Some e => Stop st' ms e
+        | None => Next st' ms l4
+        end
+      else
+        let s4 := mk_stream hdr' [] 0 false (s_ts s3) in
+        Next (mk_cstate chunk' (set_stream csid s4 (cs_streams st)))
+             [mk_rmsg hdr' buf (s_ts s3)] l4
+    else if h_len (s_hdr s3) <? s_len s3 then
+      Stop (put_stream csid s3 st) [] err_len_bigger
+    else Next (put_stream csid s3 st) [] l4
+  end.
+
 (* one iteration of the RunLoop for-loop *)
 Definition compose_chunk (v : rvariant) (st : cstate) (l : bytes) : step :=
   match read_basic l with
@@ -190,35 +221,7 @@ Definition compose_chunk (v : rvariant) (st : cstate) (l : bytes) : step :=
       match read_ext_ts fmt s1 l2 with
       | Err e => Stop (put_stream csid s1 st) [] e
       | Panic e => Stop (put_stream csid s1 st) [] e
-      | Ok (s2, l3) =>
-        let need := needed_size v (cs_chunk st) s2 in
-        match read_body l3 need (s_rbuf s2) with
-        | None => Stop (put_stream csid s2 st) [] (short_err l3)
-        | Some (rbuf, l4) =>
-          let s3 := mk_stream (s_hdr s2) rbuf (s_len s2 + need) (s_abs s2) (s_ts s2) in
-          if s_len s3 =? h_len (s_hdr s3) then
-            (* message complete *)
-            let buf := frev rbuf in
-            let chunk' := if (h_type (s_hdr s3) =? type_set_chunk_size) && (4 <=? s_len s3)
-                          then be_get (firstn 4 buf) else cs_chunk st in
-            let abs' := if s_abs s3 then h_ts (s_hdr s3) else u32 (h_ts (s_hdr s3) + s_ts s3) in
-            let hdr' := mk_hdr csid (h_len (s_hdr s3)) (h_type (s_hdr s3)) (h_msid (s_hdr s3)) abs' in
-            if h_type hdr' =? type_aggregate then
-              let '(ms, lft, e) := agg_loop (length buf) v hdr' true 0 buf in
-              let s4 := mk_stream hdr' (frev lft) (lenN lft) false (s_ts s3) in
-              let st' := mk_cstate chunk' (set_stream csid s4 (cs_streams st)) in
-              match e with
-              | Some e => Stop st' ms e
-              | None => Next st' ms l4
-              end
-            else
-              let s4 := mk_stream hdr' [] 0 false (s_ts s3) in
-              Next (mk_cstate chunk' (set_stream csid s4 (cs_streams st)))
-                   [mk_rmsg hdr' buf (s_ts s3)] l4
-          else if h_len (s_hdr s3) <? s_len s3 then
-            Stop (put_stream csid s3 st) [] err_len_bigger
-          else Next (put_stream csid s3 st) [] l4
-        end
+      | Ok (s2, l3) => compose_body v st csid s2 l3
       end
     end
   end.
